@@ -1,5 +1,6 @@
 import IofloModel.Lemmas.HttpScript
 import IofloModel.Lemmas.HttpCanon
+import IofloModel.Lemmas.HttpCanonMsg
 /-!
 # C29 — HTTP messages parse the same however their bytes arrive
 
@@ -138,7 +139,7 @@ theorem C29_response_until_close {c0 : Core} (hfr : Fresh .rsp c0) (hmax : 0 < c
     (parse (close (feedAll { core := c0, msg := [] } ps))).core.length = some body.length := by
   obtain ⟨h1, h2⟩ := response_close_any_split hfr hmax pre hpre w hch hn body ps hps
   rw [h2, h1]
-  simp [doneCore, rspHeadCore', rspHeadCore, rspAtHeadEnd, rspAfterStart, cStarted, cWait, resetOf, hfr.resetPT, hfr.escaped]
+  simp [doneCore, close, rspHeadCore', rspHeadCore, rspAtHeadEnd, rspAfterStart, cStarted, cWait, resetOf, hfr.resetPT, hfr.escaped]
 
 /-! ## any two splits -/
 
@@ -251,6 +252,189 @@ theorem C29_chunk_size_line {ds : List Nat} (hne : ds ≠ []) (hd : ∀ d ∈ ds
 
 /-- non-vacuity: `1f` is 31 -/
 example : [1, 15].map hexChar = [49, 102] ∧ hexValue [1, 15] = 31 := by decide
+
+/-- **Status line**: `version SP code SP reason` — version a token starting with `HTTP/`, code a
+decimal numeral with value 100…999, reason ANY bytes — is read as (version, code, the words of the
+reason joined by single blanks); without reason phrase the reason is empty. -/
+theorem C29_status_line {v reason : Bytes} {ds : List Nat} (hv : token v) (hver : startsWith sHTTP v = true)
+    (hne : ds ≠ []) (hd : ∀ d ∈ ds, d < 10) (hlen : ds.length ≤ maxStrDigits)
+    (hlo : 100 ≤ decValue ds) (hhi : decValue ds ≤ 999) :
+    parseStatusLine (v ++ 32 :: (ds.map decChar ++ 32 :: reason)) = .ok (v, decValue ds, joinSp (splitWs reason)) ∧
+    parseStatusLine (v ++ 32 :: ds.map decChar) = .ok (v, decValue ds, []) :=
+  ⟨parseStatusLine_canon hv hver hne hd hlen hlo hhi, parseStatusLine_canon_noreason hv hver hne hd hlen hlo hhi⟩
+
+/-- non-vacuity: `HTTP/1.1 404 Not  Found` (two blanks) is (HTTP/1.1, 404, `Not Found`) -/
+example : parseStatusLine [72, 84, 84, 80, 47, 49, 46, 49, 32, 52, 48, 52, 32, 78, 111, 116, 32, 32, 70, 111, 117, 110, 100]
+    = .ok ([72, 84, 84, 80, 47, 49, 46, 49], 404, [78, 111, 116, 32, 70, 111, 117, 110, 100]) := by rfl
+
+/-- **Chunk size line with extensions**: `hex ";" ext` is read as the size `hex` whatever the
+extension text is; the extensions are the parser's reading (`parseExts`) of that text. -/
+theorem C29_chunk_ext {ds : List Nat} (hne : ds ≠ []) (hd : ∀ d ∈ ds, d < 16) (ext : Bytes) :
+    chunkLine (ds.map hexChar ++ 59 :: ext) = .ok ((hexValue ds : Int), if ext = [] then [] else parseExts ext) :=
+  chunkLine_ext hne hd ext
+
+/-- non-vacuity: `1f;a=b;c` is size 31 with parameters a=b, c -/
+example : chunkLine ([1, 15].map hexChar ++ 59 :: [97, 61, 98, 59, 99]) = .ok (31, [([97], some [98]), ([99], none)]) := by rfl
+
+/-! ## canonically written messages: no reading hypotheses -/
+
+/-- A message as it is WRITTEN: method / origin-form target / `HTTP/1.x`, or `HTTP/1.x` / three digit
+code (not 1xx, 204, 304) / reason; the framing header first (`Content-Length: <decimal>` or
+`Transfer-Encoding: chunked`, any spelling, any blanks around the value), then header lines that do
+not touch framing or content type; the body of the announced length, or chunks `hex[;ext] CRLF data
+CRLF`, a last chunk `0…[;ext]`, trailer lines, an empty line; then arbitrary bytes.  Every condition
+is about the bytes of the message (and the size limits `MAX_LINE_SIZE`, `MAX_HEADERS`), none about
+what a parser function returns. -/
+inductive Canonical (c0 : Core) : Kind → Bytes → Prop
+  | reqLength (m u : Bytes) (v11 : Bool) (f : HLine) (ds : List Nat) (hs : List HLine) (data rest : Bytes)
+      (hm : methods.contains m = true) (hu : originForm u)
+      (hsl : (m ++ 32 :: (u ++ 32 :: verBytes v11)).length < c0.max)
+      (hok : ∀ h ∈ f :: hs, h.ok ∧ h.bytes.length < c0.max) (hn : hs.length < MAX_HEADERS)
+      (hf : isCLLine f ds) (hp : plainLines hs) (hlen : decValue ds = data.length) :
+      Canonical c0 .req (headBytes (m ++ 32 :: (u ++ 32 :: verBytes v11)) ((f :: hs).map HLine.bytes) ++ (data ++ rest))
+  | reqChunked (m u : Bytes) (v11 : Bool) (f : HLine) (hs : List HLine) (ks : List CChunk) (last : CChunk)
+      (ts : List HLine) (rest : Bytes)
+      (hm : methods.contains m = true) (hu : originForm u)
+      (hsl : (m ++ 32 :: (u ++ 32 :: verBytes v11)).length < c0.max)
+      (hok : ∀ h ∈ f :: hs, h.ok ∧ h.bytes.length < c0.max) (hn : hs.length < MAX_HEADERS)
+      (hf : isTELine f) (hp : plainLines hs)
+      (hks : ∀ k ∈ ks, k.ok c0.max ∧ k.data ≠ []) (hlast : last.ok c0.max ∧ last.data = [])
+      (hts : ∀ h ∈ ts, h.ok ∧ h.bytes.length < c0.max) (htn : ts.length ≤ MAX_HEADERS) :
+      Canonical c0 .req (headBytes (m ++ 32 :: (u ++ 32 :: verBytes v11)) ((f :: hs).map HLine.bytes) ++
+        (chunksBytes (ks.map CChunk.toChunk) ++ (lastBytes last.sizeLine (ts.map HLine.bytes) ++ rest)))
+  | rspLength (v11 : Bool) (code : List Nat) (reason : Bytes) (f : HLine) (ds : List Nat) (hs : List HLine)
+      (data rest : Bytes)
+      (hc : code.length = 3 ∧ (∀ d ∈ code, d < 10) ∧ 200 ≤ decValue code ∧ decValue code ≠ 204 ∧ decValue code ≠ 304)
+      (hr : cleanLine reason) (hmeth : c0.method ≠ sHEAD)
+      (hsl : (verBytes v11 ++ 32 :: (code.map decChar ++ 32 :: reason)).length < c0.max)
+      (hok : ∀ h ∈ f :: hs, h.ok ∧ h.bytes.length < c0.max) (hn : hs.length < MAX_HEADERS)
+      (hf : isCLLine f ds) (hp : plainLines hs) (hlen : decValue ds = data.length) :
+      Canonical c0 .rsp (headBytes (verBytes v11 ++ 32 :: (code.map decChar ++ 32 :: reason)) ((f :: hs).map HLine.bytes) ++
+        (data ++ rest))
+  | rspChunked (v11 : Bool) (code : List Nat) (reason : Bytes) (f : HLine) (hs : List HLine) (ks : List CChunk)
+      (last : CChunk) (ts : List HLine) (rest : Bytes)
+      (hc : code.length = 3 ∧ (∀ d ∈ code, d < 10) ∧ 200 ≤ decValue code)
+      (hr : cleanLine reason)
+      (hsl : (verBytes v11 ++ 32 :: (code.map decChar ++ 32 :: reason)).length < c0.max)
+      (hok : ∀ h ∈ f :: hs, h.ok ∧ h.bytes.length < c0.max) (hn : hs.length < MAX_HEADERS)
+      (hf : isTELine f) (hp : plainLines hs)
+      (hks : ∀ k ∈ ks, k.ok c0.max ∧ k.data ≠ []) (hlast : last.ok c0.max ∧ last.data = [])
+      (hts : ∀ h ∈ ts, h.ok ∧ h.bytes.length < c0.max) (htn : ts.length ≤ MAX_HEADERS) :
+      Canonical c0 .rsp (headBytes (verBytes v11 ++ 32 :: (code.map decChar ++ 32 :: reason)) ((f :: hs).map HLine.bytes) ++
+        (chunksBytes (ks.map CChunk.toChunk) ++ (lastBytes last.sizeLine (ts.map HLine.bytes) ++ rest)))
+
+theorem code3 {code : List Nat} (h : code.length = 3) (hd : ∀ d ∈ code, d < 10) : decValue code ≤ 999 := by
+  match code, h with
+  | [a, b, c], _ =>
+    have ha := hd a (by simp); have hb := hd b (by simp); have hc := hd c (by simp)
+    simp [decValue]; omega
+
+theorem rspHead_canon {c0 : Core} (v11 : Bool) {code : List Nat} {reason : Bytes} (f : HLine) (hs : List HLine)
+    (hlen : code.length = 3) (hd : ∀ d ∈ code, d < 10) (hlo : 200 ≤ decValue code) (hr : cleanLine reason)
+    (hsl : (verBytes v11 ++ 32 :: (code.map decChar ++ 32 :: reason)).length < c0.max)
+    (hok : ∀ h ∈ f :: hs, h.ok ∧ h.bytes.length < c0.max) (hn : hs.length < MAX_HEADERS)
+    (hev : isEvented (hdrsOf [] (f :: hs)) = false) :
+    RspHead c0.max (verBytes v11 ++ 32 :: (code.map decChar ++ 32 :: reason)) ((f :: hs).map HLine.bytes)
+      (if v11 then (1, 1) else (1, 0)) (decValue code) (joinSp (splitWs reason)) (hdrsOf [] (f :: hs)) := by
+  obtain ⟨hvt, hv1, _, hv3, _⟩ := verBytes_facts v11
+  have hne : code ≠ [] := by intro e; rw [e] at hlen; simp at hlen
+  obtain ⟨hl1, hl2⟩ := head_lines f hs hok hn
+  refine ⟨rspLine_clean v11 hd hne hr, hsl, ⟨verBytes v11, ?_, hv3⟩, by omega, hl1, hl2, hev⟩
+  exact parseStatusLine_canon hvt hv1 hne hd (by rw [hlen]; decide) (by omega) (code3 hlen hd)
+
+theorem chunks_canon {max : Nat} (ks : List CChunk) (hks : ∀ k ∈ ks, k.ok max ∧ k.data ≠ []) :
+    ∀ k ∈ ks.map CChunk.toChunk, k.wf max := by
+  intro k hk
+  obtain ⟨c, hc, rfl⟩ := List.mem_map.mp hk
+  exact CChunk.wf (hks c hc).1 (hks c hc).2
+
+theorem last_canon {max : Nat} {last : CChunk} (h : last.ok max ∧ last.data = []) :
+    cleanLine last.sizeLine ∧ last.sizeLine.length < max ∧ chunkLine last.sizeLine = .ok (0, last.pm) := by
+  obtain ⟨h1, h2⟩ := CChunk.line h.1
+  refine ⟨h1, h.1.2.2.2.2, ?_⟩
+  rw [h2, h.2]; rfl
+
+theorem trailers_canon {max : Nat} (ts : List HLine) (hts : ∀ h ∈ ts, h.ok ∧ h.bytes.length < max)
+    (htn : ts.length ≤ MAX_HEADERS) :
+    (∀ l ∈ ts.map HLine.bytes, goodLine max l) ∧ foldHdr [] (ts.map HLine.bytes) = some (hdrsOf [] ts) := by
+  constructor
+  · intro l hl
+    obtain ⟨h, hh, rfl⟩ := List.mem_map.mp hl
+    exact goodLine_canon (hts h hh).1 (hts h hh).2
+  · exact foldHdr_canon ts [] (fun h hh => (hts h hh).1) (by simpa using htn)
+
+/-- a canonically written message satisfies the reading hypotheses of the theorems above -/
+theorem canonical_wf {c0 : Core} {kind : Kind} {stream : Bytes} (h : Canonical c0 kind stream) :
+    WfStream c0 kind stream := by
+  cases h with
+  | reqLength m u v11 f ds hs data rest hm hu hsl hok hn hf hp hlen =>
+    obtain ⟨hl1, hl2⟩ := head_lines f hs hok hn
+    obtain ⟨hch, hrl, _, _⟩ := framing_length hf hp
+    exact WfStream.reqLength (reqLine_canon v11 hm hu hsl _ _ hl1 hl2) hch data rest (by rw [hrl, hlen])
+  | reqChunked m u v11 f hs ks last ts rest hm hu hsl hok hn hf hp hks hlast hts htn =>
+    obtain ⟨hl1, hl2⟩ := head_lines f hs hok hn
+    obtain ⟨hch, _⟩ := framing_chunked hf hp
+    obtain ⟨a1, a2, a3⟩ := last_canon hlast
+    obtain ⟨t1, t2⟩ := trailers_canon ts hts htn
+    exact WfStream.reqChunked (reqLine_canon v11 hm hu hsl _ _ hl1 hl2) hch _ (chunks_canon ks hks) _ _ a1 a2 a3 _ _ t1 t2 rest
+  | rspLength v11 code reason f ds hs data rest hc hr hmeth hsl hok hn hf hp hlen =>
+    obtain ⟨hch, hrl, hcl, hev⟩ := framing_length hf hp
+    have w := rspHead_canon (c0 := c0) v11 f hs hc.1 hc.2.1 hc.2.2.1 hr hsl hok hn hev
+    have hrsp : rspLen (rspAtHeadEnd c0 (if v11 then (1, 1) else (1, 0)) (decValue code) (joinSp (splitWs reason))
+        (hdrsOf [] (f :: hs))) (hdrsOf [] (f :: hs)) = some data.length := by
+      have h204 := hc.2.2.2.1
+      have h304 := hc.2.2.2.2
+      have hlo := hc.2.2.1
+      have hst : ¬ (decValue code = 204 ∨ decValue code = 304 ∨ (100 ≤ decValue code ∧ decValue code < 200) ∨
+          c0.method = sHEAD) := by
+        intro h; rcases h with h | h | h | h
+        · exact h204 h
+        · exact h304 h
+        · omega
+        · exact hmeth h
+      unfold reqLen at hrl
+      rw [hcl] at hrl
+      simp only [rspLen, rspAtHeadEnd, rspAfterStart, cStarted, cWait, Option.getD, hst, if_false, hcl, hch]
+      simpa [hlen] using hrl
+    exact WfStream.rspLength [] (by simp) w hch data rest hrsp
+  | rspChunked v11 code reason f hs ks last ts rest hc hr hsl hok hn hf hp hks hlast hts htn =>
+    obtain ⟨hch, hev⟩ := framing_chunked hf hp
+    have w := rspHead_canon (c0 := c0) v11 f hs hc.1 hc.2.1 hc.2.2 hr hsl hok hn hev
+    obtain ⟨a1, a2, a3⟩ := last_canon hlast
+    obtain ⟨t1, t2⟩ := trailers_canon ts hts htn
+    exact WfStream.rspChunked [] (by simp) w hch _ (chunks_canon ks hks) _ _ a1 a2 a3 _ _ t1 t2 rest
+
+/-- **Canonically written messages, however the bytes arrive, with no hypothesis about what the
+parser reads**: any two ways of cutting a canonical request or response (fixed length or chunked with
+extensions and trailers) followed by arbitrary bytes into receives — empty receives included — leave
+a fresh or reused parser in the same complete state. -/
+theorem C29_canonical_message_split_independent {c0 : Core} {kind : Kind} (hfr : Fresh kind c0) (hmax : 0 < c0.max)
+    {stream : Bytes} (h : Canonical c0 kind stream) (ps ps' : List Bytes)
+    (hps : ps.flatten = stream) (hps' : ps'.flatten = stream) :
+    feedAll { core := c0, msg := [] } ps = feedAll { core := c0, msg := [] } ps' :=
+  C29_split_independent hfr hmax (canonical_wf h) ps ps' hps hps'
+
+/-- non-vacuity of `Canonical`: `POST /x HTTP/1.1`, `Content-Length:3` (no blank after the colon),
+`Host: h`, body `abc`, then `NEXT` — two different ways of cutting it give the same state -/
+example :
+    let c0 := (init .req [71, 69, 84] 65536).core
+    feedAll { core := c0, msg := [] } [[80, 79, 83, 84, 32, 47, 120, 32, 72, 84, 84, 80, 47, 49, 46, 49], [88, 88].drop 2, [13, 10] ++ [67, 111, 110, 116, 101, 110, 116, 45, 76, 101, 110, 103, 116, 104, 58, 51] ++ [13, 10] ++ [72, 111, 115, 116, 58, 32, 104] ++ [13, 10, 13, 10] ++ [97, 98, 99, 78, 69, 88, 84]]
+      = feedAll { core := c0, msg := [] } [[80, 79, 83, 84, 32, 47, 120, 32, 72, 84, 84, 80, 47, 49, 46, 49] ++ [13, 10] ++ [67, 111, 110, 116, 101, 110, 116, 45, 76, 101, 110, 103, 116, 104, 58, 51] ++ [13, 10] ++ [72, 111, 115, 116, 58, 32, 104] ++ [13, 10, 13, 10] ++ [97, 98, 99, 78, 69, 88, 84]] := by
+  intro c0
+  have hcan : Canonical c0 .req (headBytes ([80, 79, 83, 84] ++ 32 :: ([47, 120] ++ 32 :: verBytes true))
+      (([⟨[67, 111, 110, 116, 101, 110, 116, 45, 76, 101, 110, 103, 116, 104], [], [51], []⟩, ⟨[72, 111, 115, 116], [32], [104], []⟩] : List HLine).map HLine.bytes) ++
+      ([97, 98, 99] ++ [78, 69, 88, 84])) :=
+    Canonical.reqLength [80, 79, 83, 84] [47, 120] true ⟨[67, 111, 110, 116, 101, 110, 116, 45, 76, 101, 110, 103, 116, 104], [], [51], []⟩ [3]
+      [⟨[72, 111, 115, 116], [32], [104], []⟩] [97, 98, 99] [78, 69, 88, 84] (by decide)
+      ⟨⟨by simp, by decide⟩, [120], rfl, by simp⟩ (by decide)
+      (by intro h hh
+          simp only [List.mem_cons, List.not_mem_nil, or_false] at hh
+          rcases hh with rfl | rfl <;>
+            exact ⟨⟨by decide, by intro x hx; simp at hx <;> simp [hx], by intro x hx; simp at hx, by decide,
+              ⟨by intro x hx; simp at hx; subst hx; decide, by intro x hx; simp at hx; subst hx; decide⟩⟩, by decide⟩)
+      (by decide) ⟨by decide, rfl, by simp, by decide, by decide⟩
+      (by intro h hh; simp only [List.mem_cons, List.not_mem_nil, or_false] at hh; subst hh; decide) (by decide)
+  exact C29_canonical_message_split_independent (fresh_init _ _ _) (by decide) hcan _ _ (by decide) (by decide)
 
 /-! ## non-vacuity: concrete messages -/
 
